@@ -1141,7 +1141,14 @@ class ValueMap(Value):
         return self.value == other.value
 
     def __lt__(self, other):
-        return str(self) < str(other)
+        a, b = str(self), str(other)
+        if a == b and isinstance(other, ValueMap):
+            # entries that render alike need not be equal: they decide
+            return self.sortedEntries() < other.sortedEntries()
+        return a < b
+
+    def sortedEntries(self):
+        return [(key, self.value[key]) for key in self.getSortedKeys()]
 
     def __repr__(self):
         return "<<<" + pad_brackets(
@@ -1498,7 +1505,11 @@ class ValueSet(Value):
         return self.value == other.value
 
     def __lt__(self, other):
-        return str(self) < str(other)
+        a, b = str(self), str(other)
+        if a == b and isinstance(other, ValueSet):
+            # members that render alike need not be equal: they decide
+            return self.getSortedItems() < other.getSortedItems()
+        return a < b
 
     def __repr__(self):
         return "<<" + pad_brackets(
